@@ -201,3 +201,49 @@ def cfloat_to_int_via_float(c):
     except OverflowError:
         return False
     return (int(f32) % (1 << w)) == i[0]
+
+
+def _int_src(c):
+    w, b = ints(c['args'])[:2]
+    if w == 65:
+        w = 64
+    b &= (1 << w) - 1
+    if c['opname'] == 'from_int' and b >= 1 << (w - 1):
+        b -= 1 << w
+    return b
+
+
+@pred
+def float_source_beyond_int64(c):
+    x, e, f, fb = _src_double(c)
+    return x == x and abs(x) >= 2.0 ** 63
+
+
+@pred
+def cfloat_int_source_needs_rounding_or_overflows(c):
+    n, es, sub, sup, sat, fb = _cf(c)
+    z = abs(_int_src(c))
+    if z == 0:
+        return False
+    sig = z.bit_length() - (z & -z).bit_length() + 1          # significant bits
+    emax = (1 << es) - 1 - ((1 << (es - 1)) - 1)               # scale of the top binade
+    w = ints(c['args'])[0]
+    w = 64 if w == 65 else w
+    if c['opname'] == 'from_int' and _int_src(c) == -(1 << (w - 1)):
+        return True                                              # the most negative value of the source type
+    subnormal_target = es == 1 and z < 2                         # 1 is a subnormal of an es = 1 configuration
+    return sig > fb + 1 or z.bit_length() - 1 >= emax - (0 if sup else 1) or subnormal_target
+
+
+@pred
+def native_subnormal_source(c):
+    x, e, f, fb = _src_double(c)
+    return e == 0 and f != 0
+
+
+@pred
+def nan_source_gives_inf(c):
+    x, e, f, fb = _src_double(c)
+    n = cfg_ints(c)[0]
+    i = ints(c['impl'])
+    return x != x and len(i) == 1
